@@ -89,6 +89,7 @@ PROPS = {
             regress("C05"),
             {"run": "^TestC05$", "quick": 1, "thorough": 1, "rapid": False},
             {"run": "^TestC05Outs$", "quick": 6000, "thorough": 60000},
+            {"run": "^TestC05SameName$", "quick": 1, "thorough": 1, "single": True, "rapid": False},
         ],
     },
     "C06": {
